@@ -35,11 +35,11 @@ CHECKS = {
    note=SC_NOTE),
  "C03": dict(level="exploration", design="5/C03",
    technique="deterministic simulation family S-A: the whole engine process (I/O thread, search threads, channel, clock, stdin/stdout) under a seeded discrete-event kernel with injected stalls, oversleeps, spawn delays, process pauses; session-model oracle over the recorded history",
-   text="Thousands of seeded GUI sessions (positions by FEN and by moves, go with none/zero/negative/timed clocks, consecutive go commands) are executed under a kernel that owns every interleaving of the search thread with the polling I/O thread; for each go on a non-terminal model position the recorded transcript must hold exactly one well-formed bestmove that is referee-legal, and the model advances by the engine's own answers.",
+   text="Thousands of seeded GUI sessions (positions by FEN and by moves, go with none/zero/negative/timed clocks, consecutive go commands) are executed under a kernel that owns every interleaving of the search thread with the polling I/O thread; for each go on a non-terminal model position the recorded transcript must hold exactly one well-formed bestmove that is referee-legal, and the model advances by the engine's own answers. Sessions include positions whose only move is an en-passant capture or whose every move is a promotion, closed-shuffle positions (the search thread finishes before the deadline), marathon sessions of up to 2300 consecutive go commands after one position, and end of input right behind a timed go. A second pass runs the same check built with overflow checks on. When the engine reads stdin in a thread of its own, outputs are attributed by protocol order (k-th bestmove answers the k-th go).",
    note="Trusted: the seam mirrors std (read_line, mpsc disconnect, panic kills thread, exit); the cost model (c_node per node, 1 us per seam call) stands in for real scheduling, widened by injected delays; the referee. Sampling over schedules x inputs, not proof."),
  "C08": dict(level="exploration", design="5/C08",
    technique="deterministic simulation family S-A with timing faults: bounded-liveness oracle on virtual time relative to the engine's own plan and to the delays the simulator injected; exact hang detection on the channel",
-   text="Sessions including checkmated and stalemated positions (by FEN and reached by moves) run under stall/oversleep/spawn-delay/pause faults; every go must be answered (null move when no legal move exists) within plan + 2 poll quanta + injected I/O delay once a move exists, the first move must exist within a small node budget after the deadline, isready must be answered afterwards. A polling loop that can never receive a message is detected exactly, not by timeout.",
+   text="Sessions including checkmated and stalemated positions (by FEN and reached by moves) run under stall/oversleep/spawn-delay/pause faults; every go must be answered (null move when no legal move exists) within plan + 2 poll quanta + injected I/O delay once a move exists, the first move must exist within a small node budget after the deadline, isready must be answered afterwards. A polling loop that can never receive a message is detected exactly, not by timeout. Includes closed-shuffle games (search ends before the deadline), marathon sessions and end of input behind a timed go (the go is still owed its bestmove).",
    note="Bounds are relative to the simulator's cost model and injected delays; nothing is established about absolute wall-clock figures of the real binary."),
  "C09": dict(level="exploration", design="5/C09",
    technique="deterministic simulation family S-A (measured delay vs the engine's own plan on virtual time, fault-free and with timing faults) plus a configuration sweep of the plan against an exact-arithmetic policy model",
@@ -47,23 +47,23 @@ CHECKS = {
    note="(ii) is arithmetic over configurations (no schedule in it) and is included because the timed clause is only meaningful relative to the plan. Plans too long to simulate are checked in (ii) only."),
  "C16": dict(level="exploration", design="5/C16",
    technique="deterministic simulation family S-A: metamorphic session pairs (fresh engine vs after seeded earlier traffic with timing faults in the prefix), prefix-relation oracle over the recorded improvement sequences",
-   text="The same request (position X, go G) is simulated in a fresh engine and after 1-6 items of arbitrary earlier traffic (other games with timed/zero-slice go and possibly still-running search threads, ucinewgame, setoption, noise, shorter/longer versions of X's game, the request itself), optionally repeated; zero-slice replies must be identical, timed replies must agree on the common prefix of (depth, nodes, score, first PV move).",
-   note="Outputs are attributed to search threads by simulated thread id, so a late line of an old search is not mistaken for the probed one. Sampling over session histories."),
+   text="The same request (position X, go G) is simulated in a fresh engine and after 1-6 items of arbitrary earlier traffic (other games with timed/zero-slice go and possibly still-running search threads, ucinewgame, setoption, noise, shorter/longer versions of X's game, the request itself), optionally repeated; zero-slice replies must be identical, timed replies must agree on the common prefix of (depth, nodes, score, first PV move). Zero-slice probes include the largest clocks for which the time policy still forces a zero slice; a zero-slice request that is searched in one session only is a violation; prefixes contain forced-move positions and consecutive go commands.",
+   note="When delays are injected, outputs are attributed to search threads by simulated thread id (a stalled old search may legitimately print late); when none is injected the reply is compared as the GUI sees it (every info line between go and bestmove). Sampling over session histories."),
  "C17": dict(level="fault_enumeration", design="5/C17",
    technique="deterministic simulation family S-A with input-stream faults: noise/whitespace/unknown-token injection compared metamorphically against the clean script, and end-of-input injected at every command boundary of each script (enumerated) plus sampled mid-line offsets",
-   text="For each generated timing-free script: a noisy twin must produce the same transcript and probed state; stdin is closed at every command boundary (exhaustive per script) and at sampled mid-line offsets and the process must end (exit event) rather than keep reading; quit must be followed by exit and no output; every isready gets exactly one readyok.",
-   note="Exhaustive only over the EOF boundaries of the scripts drawn; scripts and noise placement are sampled. Noise is valid UTF-8 not beginning with a known command word."),
+   text="For each generated timing-free script: a noisy twin must produce the same transcript and probed state; stdin is closed at every command boundary (exhaustive per script) and at sampled mid-line offsets and the process must end (exit event) rather than keep reading; quit must be followed by exit and no output; every isready gets exactly one readyok. Noise includes setoption lines for options the engine lacks and lines that are not valid UTF-8 (read_line -> Err(InvalidData)); the noisy script is also delivered pipelined (nothing waited for) with slowly starting search threads.",
+   note="Exhaustive only over the EOF boundaries of the scripts drawn; scripts and noise placement are sampled. Noise does not begin with a known command word (except setoption for unknown options)."),
  "C07": dict(level="fault_enumeration", design="5/C07",
    technique="deterministic simulation family S-B: the real get_best_move under a scripted clock that expires at the k-th query, for every k of each sampled position (crash-point enumeration), compared with a reference run under an unlimited clock",
-   text="For each sampled position (half with a game history in the repetition record) the clock is made to expire at every query index k in [0, K] (all k when K <= 1500; otherwise all k <= 300, +-3 around every send/info boundary and 300 sampled). Per k: no panic; boards handed back are a prefix of the unlimited run's (one legal first-in-ordering board when nothing completed); info lines are a prefix; the repetition record is unchanged; no sentinel in any score. Each position is also run with an allowance of 2^63-1 .. u128::MAX ms that the clock never reaches: the reported sequence must be the reference's.",
-   note="Exhaustive over expiry points only for the positions drawn (and only when K <= 1500); positions are sampled; search depth in simulation is <= 3 (4 in thorough). The unlimited-clock reference is itself anchored by C12 and C18."),
+   text="For each sampled position (half with a game history in the repetition record) the clock is made to expire at every query index k in [0, K] (all k when K <= 1500; otherwise all k <= 300, +-3 around every send/info boundary and 300 sampled). Per k: no panic; boards handed back are a prefix of the unlimited run's (one legal first-in-ordering board when nothing completed); info lines are a prefix; the repetition record is unchanged; no sentinel in any score. Each position is also run with an allowance of 2^63-1 .. u128::MAX ms that the clock never reaches: the reported sequence must be the reference's. Closed-shuffle roots (tiny trees) are run to the search's own end - all 99 iterations - with sampled expiry points on the way.",
+   note="Exhaustive over expiry points only for the positions drawn (and only when K <= 1500); positions are sampled; search depth in simulation is <= 5 on ordinary positions and 99 on closed shuffles. The unlimited-clock reference is itself anchored by C12 and C18."),
  "C10": dict(level="exploration", design="5/C10",
    technique="deterministic simulation families S-C (real position handler vs a multiset model over shuffle-rich histories) and S-B (real search under a scripted clock on roots offering a repetition)",
-   text="(i) after the real position handler has replayed histories with up to 100 repetitions the record must hold exactly the occurrence count of every position and nothing else - both by calling the handler directly and in simulated sessions of several position commands through the real command loop; (ii) on roots where a clearly worse mover can step into a position that already occurred 2, 3 or 4 times, every completed depth must report a score >= 0.",
+   text="(i) after the real position handler has replayed histories with up to 100 repetitions the record must hold exactly the occurrence count of every position and nothing else - both by calling the handler directly and in simulated sessions of several position commands through the real command loop; (ii) on roots where a clearly worse mover can step into a position that already occurred 2, 3 or 4 times, every completed depth must report a score >= 0 - by calling the search directly and, observed on stdout only, in simulated sessions where the repetition root follows earlier timed searches (late hand-overs from their threads injected).",
    note="Counts are compared by the from-scratch key of the referee position; zero-count entries are treated as absent."),
  "C11": dict(level="exploration", design="5/C11",
    technique="deterministic simulation family S-B: real search to depth 3 under a scripted clock on generated near-mate positions; oracle = independent AND/OR mate solver on the referee",
-   text="Small positions near mate/stalemate are classified by the solver; a mate in one must be in hand from the end of iteration 1 on, a move into mate in one must not be in hand from the end of iteration 2 on when a safe move exists, every positive mate announcement and every final negative one must be true (verified up to mate in 3).",
+   text="Small positions near mate/stalemate are classified by the solver; a mate in one must be in hand from the end of iteration 1 on, a move into mate in one must not be in hand from the end of iteration 2 on when a safe move exists, every positive mate announcement and every final negative one must be true (verified up to mate in 3). Roots include an enumerated list of mate-in-one positions for every material class of at most four men.",
    note="Mate claims beyond the solver bound are counted as unverified, never as violations. 'mated in N' on an interim line (best line so far) is not judged; the quantifier is over completed depths."),
  "C12": dict(level="exploration", design="5/C12",
    technique="deterministic simulation family S-B: real search under an unlimited scripted clock vs a plain full-window negamax written in the harness over the engine's own generator and evaluation",
@@ -71,7 +71,7 @@ CHECKS = {
    note="The reference shares generate_moves/get_evaluation/is_check with the engine on purpose (the property is about its own evaluation); positions whose un-pruned reference exceeds 1.5M nodes are skipped and counted."),
  "C15": dict(level="exploration", design="5/C15",
    technique="input-corruption faults on the engine's one input stream (FEN text): seeded mutation of referee-printed FENs delivered to the loader, to the real position handler and to the real binary's command line; referee strict parser as the acceptance oracle",
-   text="Legal FENs with small and large counters must load field for field; ~25 corrupted variants per FEN plus every truncation/deletion/substitution point of two fixed FENs must never panic inside the loader; a sample goes through the real binary, which must exit 0 with a message.",
+   text="Legal FENs with small and large counters must load field for field; ~25 corrupted variants per FEN plus every truncation/deletion/substitution point of two fixed FENs must never panic inside the loader; a sample goes through the real binary, which must exit 0 with a message. A second pass runs with overflow checks on (counters at the type limits).",
    note="Weakest fit for this family (no schedule in it); kept because the failure is a crash of the running session. Strings are valid Unicode without NUL."),
  "C18": dict(level="fault_enumeration", design="5/C18",
    technique="deterministic simulation family S-B: every info line emitted at every injected expiry point of the C07 enumeration is checked against a strict grammar and score-bound oracle",
